@@ -231,6 +231,45 @@ class Program:
         except OSError:
             return
         self.inlined_helpers = {}
+        self.relocated = {}
+        try:
+            with open(os.path.join(VERIF, "rules", "tables", "anchors.json")) as f:
+                fps = json.load(f).get("fingerprints", {})
+        except OSError:
+            fps = {}
+        # anchors whose name vanished: an internal function that was renamed is found again by its callee set
+        for tab, is_util in ((self.functions, False), (self.util_functions, True)):
+            missing = [a for a in anchors if a not in tab and a in fps and fps[a]["unit"].startswith("util/") == is_util]
+            if not missing:
+                continue
+            newcomers = {name: fn for name, fn in tab.items() if name not in anchors and not fn.file.endswith(".h") and name not in self.exports_names()}
+            cs = {name: set(x.j.get("callee") for x in fn.nodes if x is not None and x.k == "CallExpr" and x.j.get("callee")) for name, fn in newcomers.items()}
+            for a in missing:
+                want = set(fps[a]["callees"])
+                if len(want) < 2:
+                    continue
+                scored = []
+                for name, got in cs.items():
+                    inter = len(want & got)
+                    union = len(want | got) or 1
+                    scored.append((inter / union, name))
+                scored.sort(reverse=True)
+                if scored and scored[0][0] >= 0.7 and (len(scored) == 1 or scored[1][0] < scored[0][0] - 0.15):
+                    new = scored[0][1]
+                    tab[a] = tab.pop(new)
+                    tab[a].real_name = new
+                    tab[a].name = a             # the rules speak of the anchor by its confirmed name
+                    tab[a].j["name"] = a
+                    self.relocated[a] = new
+                    # the rules speak of the anchor by its confirmed name: call sites follow
+                    for fn2 in list(tab.values()):
+                        for n2 in fn2.nodes:
+                            if n2 is None:
+                                continue
+                            if n2.k == "CallExpr" and n2.j.get("callee") == new:
+                                n2.j["callee"] = a
+                            elif n2.k == "DeclRefExpr" and n2.j.get("dk") == "func" and n2.j.get("name") == new:
+                                n2.j["name"] = a
         for tab in (self.functions, self.util_functions):
             helpers = {}
             for name, fn in tab.items():
@@ -271,6 +310,12 @@ class Program:
         if f is None:
             raise Inconclusive("anchor vanished: function %s not found" % name)
         return f
+
+    def exports_names(self):
+        try:
+            return set(self.exports)
+        except Exception:
+            return set()
 
     def has_fn(self, name, util=False):
         return name in (self.util_functions if util else self.functions)
